@@ -58,7 +58,7 @@ def _agree(part, i0, i1, s0, s1, b0, k0, k1, k2):
             if seam.monitor(calls, writer == "native"):
                 outs.append(("BAD", None, None))
             else:
-                outs.append(("ok", seam.tree_of(calls), calls))
+                outs.append(("ok", seam.tree_of(calls, qnames=_QNAMED), calls))
         except Exception as e:  # noqa: BLE001
             outs.append((type(e).__name__, None, None))
     kinds = [o[0] for o in outs]
@@ -91,6 +91,9 @@ def _agree(part, i0, i1, s0, s1, b0, k0, k1, k2):
     return result(same)
 
 
+# element / attribute names whose values are QNames by the model: compared modulo prefix choice
+_QNAMED = ("{urn:a}q", "{urn:a}qs", "qa")
+
 PRE = {}
 EXPLAIN = {}
 _WALK = ["basic_int", "basic_str", "textattr", "lists_int", "nilparent", "parenta", "unqualified", "sequential", "wrapped", "compound_single", "defaults", "nsattr"]
@@ -104,6 +107,8 @@ def plan(tier):
         nss = [0, 3, 5, 8, 1, 9, 2, 7]
         for n, name in enumerate(names):
             jobs.append(Job("agree", {"spec": name, "ns": nss[n % 8], "ida": n % 2, "slen": slow.get(name, 2), "imax": 100, "walk": int(name in _WALK)}, 240, 30))
+        for name, ns in (("nsattr", 1), ("nsattrparent", 1), ("nsattr", 10), ("nsattrparent", 7), ("qnames", 7), ("qnames", 1)):
+            jobs.append(Job("agree", {"spec": name, "ns": ns, "ida": 0, "slen": 1, "imax": 100}, 240, 30))
         for ns in (5, 8):
             for name in ("nillable", "holder", "anytyped", "nsattr", "parenta", "qnames"):
                 jobs.append(Job("agree", {"spec": name, "ns": ns, "ida": 0, "slen": 1, "imax": 100}, 240, 30))
